@@ -23,6 +23,9 @@ def run(ctx):
     ctx.rule("law", "F == sum_atoms sum_ops w * exp(-h (R beta R^T) h) * (f+f'+if'') * e^{2 pi i h.(R x + t)} for symbolic R, t")
     ctx.rule("loop", "all nsymop operations and all atoms contribute exactly once (nsymop = 2 and 3; 1 and 2 atoms)")
     ctx.rule("even", "every factor except the phase is even in hkl (Friedel)")
+    # the operations StructureFactor sums over are those of the object sg.sg(sgname=...) hands it: they must be the tabulated ones
+    from props import sgobject
+    sgobject.rule(ctx, "C07", "StructureFactor reads mysg.rot, mysg.trans and mysg.nsymop")
     mod = core.module("xfab/structure.py")
     fn = mod.func("StructureFactor")
     ctx.saw(mod, fn)
